@@ -447,6 +447,9 @@ theorem facts_c12 :
       "if-init:i.writeCrtLists();err!=nil=>return:fmt.Errorf",
       "call:timer.Tick", "if:!i.options.fake", "assign:updater:=i.newDynUpdater()", "assign:updated:=updater.update()",
       "if:rewrite{updated=false}",
+      -- repo commit b7287f0: the owed rewrite sorts and fills the source address of EVERY backend (the changed set
+      -- of the update that failed is gone); Props/C12Tie.lean owed_rewrite_fills_all is about this statement
+      "if:rewrite{i.config.Backends().SortAllEndpoints;i.config.Backends().FillAllSourceIPs}",
       "if:i.options.SortEndpointsBy!=\"random\"{i.config.Backends().SortChangedEndpoints}",
       "call:i.config.Backends().FillSourceIPs",
       "if:!updated||updater.cmdCnt>0||i.config.Backends().Changed()", "assign:i.rewriteOwed=false",
